@@ -189,6 +189,12 @@ public:
             io_error( "Invalid dimension for bmp file." );
         }
 
+        // the readers compute the row pitch in int: width * bits per pixel (+ 31 for rounding) has to fit
+        if( static_cast< long long >( _info._width ) * _info._bits_per_pixel > (std::numeric_limits< int >::max)() - 31 )
+        {
+            io_error( "bmp row is too large." );
+        }
+
         _info._valid = true;
     }
 
